@@ -25,8 +25,23 @@ def build(tree, case, oids, name="T"):
     return f, (lambda: {"rank0": 0, "root": proj.proj_fiber(f, None, oids), "ranks": []})
 
 
-def ylist(it, oids):
-    return [{"c": c, "p": proj.proj_payload(p, None, oids)} for c, p in it]
+def ylist(it, oids, poke=None, take=-1):
+    """consumes a traversal, projecting every yield when it is delivered.  poke: set of ids of the payload objects the fiber stores - a delivered leaf that is
+    none of them (a stand-in for an absent coordinate) is updated in place after it was recorded, as a loop body may do; take: stop after that many yields."""
+    out = []
+    if take == 0:
+        return out            # the traversal is created but never advanced
+    for c, p in it:
+        out.append({"c": c, "p": proj.proj_payload(p, None, oids)})
+        if poke is not None and isinstance(p, Payload) and id(p) not in poke:
+            p += 5
+        if take >= 0 and len(out) >= take:
+            break
+    return out
+
+
+def stored_ids(f):
+    return {id(p) for p in f.payloads}
 
 
 def execute(case):
@@ -35,7 +50,7 @@ def execute(case):
     out = {k: v for k, v in case.items() if k not in ("f", "g")}
     out.update({"dflt": case.get("dflt", 0), "exc": "ok", "ys": [], "ys2": [], "mat": {"k": "F", "e": []}})
     for k, d in (("lo", 0), ("hi", 0), ("haslo", 1), ("hashi", 1), ("step", 1), ("sp", -1), ("fmt", "C"), ("shape", 6), ("hasact", 0), ("act", [0, 0]),
-                 ("s", 1), ("o", 0), ("hasiv", 0), ("iv", [0, 0]), ("pred", ""), ("mode", "")):
+                 ("s", 1), ("o", 0), ("hasiv", 0), ("iv", [0, 0]), ("pred", ""), ("mode", ""), ("take", -1), ("poke", 0)):
         out.setdefault(k, d)
     try:
         f, pf = build(case["f"], case, oids)
@@ -58,7 +73,7 @@ def execute(case):
                 it = f.iterActiveShape()
             elif mode == "default":
                 it = iter(f)
-            out["ys"] = ylist(it, oids)
+            out["ys"] = ylist(it, oids, poke=stored_ids(f) if case.get("poke") else None)
         elif kind == "iterref":
             if mode == "shaperef":
                 it = f.iterShapeRef()
@@ -66,7 +81,7 @@ def execute(case):
                 it = f.iterRangeShapeRef(lo, hi, out["step"])
             else:
                 it = f.iterActiveShapeRef()
-            out["ys"] = ylist(it, oids)
+            out["ys"] = ylist(it, oids, take=out["take"])
         elif kind == "coiter":
             g, pg = build(case["g"], case, oids, "G")
             out["pres"] = [out["pre"], pg()]
@@ -78,7 +93,17 @@ def execute(case):
                 res = Fiber.coiterRangeShape([f, g], lo, hi, out["step"])
             else:
                 res = Fiber.coiterRangeShapeRef([f, g], lo, hi, out["step"])
-            out["ys"] = [{"c": c, "ps": [proj.proj_payload(p, None, oids) for p in ps]} for c, ps in res]
+            ys = []
+            sto = [stored_ids(f), stored_ids(g)]
+            for c, ps in (res if out["take"] != 0 else []):
+                ys.append({"c": c, "ps": [proj.proj_payload(p, None, oids) for p in ps]})
+                if case.get("poke") and "ref" not in mode:
+                    for q, p in enumerate(ps):
+                        if isinstance(p, Payload) and id(p) not in sto[q]:
+                            p += 5
+                if out["take"] >= 0 and len(ys) >= out["take"]:
+                    break
+            out["ys"] = ys
             out["posts"] = [pf(), pg()]
         elif kind == "project":
             s, o = out["s"], out["o"]
